@@ -3,7 +3,7 @@
     Model: Model02.v (WFXMLScanner / XMLScanner, DOCTYPE-free documents, XML 1.0; character classes and error-code
     severities regenerated from /repo on every run).  Spec: Spec02.v (lexical documents, render, events, wf_ldoc). *)
 From XV Require Import Base.XDefs Gen.GenXMLChar Gen.GenErrs C02.Model02 C02.Spec02 C02.Proofs02a C02.Proofs02b C02.Proofs02c
-  C02.Proofs02d C02.Proofs02e.
+  C02.Proofs02d C02.Proofs02e C02.Model02e C02.Proofs02f.
 Local Open Scope N_scope.
 
 (** every error code the model can emit lies in the fatal range F_LowBounds..F_HighBounds of the generated
@@ -93,6 +93,35 @@ Theorem T02_name_surrogates :
   (forall cp, 0x10000 <= cp <= 0xEFFFF -> exists h l, is_hi_name h = true /\ is_lo l = true /\ pair_cp h l = cp).
 Proof. exact name_surrogates_ok. Qed.
 Print Assumptions T02_name_surrogates.
+
+(** ENTITY LAYER (Model02e.v): internal general entities, each replacement text scanned as [content] on its own (XML 1.0
+    4.3.2) and, in attribute values, as attribute text.  It is a conservative extension: without declared entities its
+    content loop, start-tag scanner, attribute-value and character-data scanners are the DOCTYPE-free model's, so every
+    theorem above carries over to documents whose DTD declares no general entity. *)
+Theorem T02_entity_layer_conservative : forall fuel nsf stack l,
+  econtent fuel nsf [] [] false stack l = content fuel nsf stack l.
+Proof. exact econtent_nil. Qed.
+Print Assumptions T02_entity_layer_conservative.
+Theorem T02_entity_layer_conservative_attval : forall fuel q sur l, eattval fuel [] q sur l = scan_attval fuel q sur l.
+Proof. exact eattval_nil. Qed.
+Print Assumptions T02_entity_layer_conservative_attval.
+(** executions of the entity layer (not universal claims): an element may not start in one entity and end in another -
+    side by side or nested -, a quote inside a referenced entity does not end the attribute value, recursion is an error *)
+Definition A (s : list N) := s.
+Example T02_entity_examples :
+  let e1 := ([101;49], [60;98;62;116]) in                 (* e1 = "<b>t" *)
+  let e2 := ([101;50], [109;60;47;98;62]) in              (* e2 = "m</b>" *)
+  let inner := ([105], [60;47;98;62]) in                  (* i  = "</b>" *)
+  let outer := ([111], [60;98;62;38;105;59]) in           (* o  = "<b>&i;" *)
+  let q := ([113], [105;116;39;115]) in                   (* q  = "it's" *)
+  let el := ([108], [60;101;32;120;61;39;38;113;59;32;102;39;47;62]) in   (* l = "<e x='&q; f'/>" *)
+  let rc := ([114], [97;38;114;59]) in                    (* r  = "a&r;" *)
+  snd (escan_doc false [e1; e2] [60;97;62;38;101;49;59;38;101;50;59;60;47;97;62]) = OStop (Fatal EC_PartialTagMarkupError) /\
+  snd (escan_doc false [inner; outer] [60;97;62;38;111;59;60;47;97;62]) = OStop (Fatal EC_PartialTagMarkupError) /\
+  escan_doc false [q; el] [60;97;62;38;108;59;60;47;97;62] =
+    ([EvStart [97] []; EvStart [101] [([120], [105;116;39;115;32;102])]; EvEnd [101]; EvEnd [97]], OOk) /\
+  snd (escan_doc false [rc] [60;97;62;38;114;59;60;47;97;62]) = OStop (Fatal EC_RecursiveEntity).
+Proof. vm_compute. repeat split; reflexivity. Qed.
 
 (** REJECT SIDE.  Full statement (not proved):
       T02_reject : forall cfg s ev, xscan cfg s = (ev, OOk) -> exists d ch, wf_ldoc (ns cfg) d = true /\ s = render d ch.
